@@ -64,6 +64,18 @@ fn own<'a>(events: &'a [Ev], h: &Cfg) -> Vec<Ev> {
         .collect()
 }
 
+/// Signature of the open finding C06-strict-refusal-of-truncated-tag: the two handler sets only
+/// disagree about a start tag the input ends in - once that tag is completed (`>`, or a closing
+/// quote and `>`), both refuse the document.
+fn refusal_is_only_premature(c: &Case, o: &Cfg, st: &mut Stats) -> bool {
+    [&b">"[..], b"\">", b"'>"].iter().any(|suffix| {
+        let mut completed = c.input.clone();
+        completed.extend_from_slice(suffix);
+        st.evals_add(2);
+        run(&[&completed[..]], &c.h).kind() == "ambiguity" && run(&[&completed[..]], o).kind() == "ambiguity"
+    })
+}
+
 pub fn check_case(c: &Case, st: &mut Stats) -> PResult {
     let chunks = split(&c.input, &c.cuts);
     let base = run(&chunks, &c.h);
@@ -78,7 +90,12 @@ pub fn check_case(c: &Case, st: &mut Stats) -> PResult {
         if let Some(p) = r.panicked() {
             fail!("C06: panic with handler set H+O{i}: {p}");
         }
-        ensure!(r.kind() == base.kind(), "C06: result kind differs: H => {}, H+O{i} => {}", base.kind(), r.kind());
+        if r.kind() != base.kind() {
+            if c.h.strict && base.kind() == "ambiguity" && r.kind() == "ok" && refusal_is_only_premature(c, o, st) {
+                return Err(Failure::known("C06-strict-refusal-of-truncated-tag", format!("C06: strict mode refuses the document with handler set H but not with H+O{i}: the input ends inside an unfinished text-mode start tag, which the tag scanner judges at the end of the tag name and the lexer only at '>'")));
+            }
+            fail!("C06: result kind differs: H => {}, H+O{i} => {}", base.kind(), r.kind());
+        }
         if base.result.is_err() {
             ensure!(r.out.starts_with(&base.out) || base.out.starts_with(&r.out), "C06: failed runs emitted diverging prefixes (H vs H+O{i})");
             continue;
@@ -130,6 +147,19 @@ impl Prop for C06 {
     }
     fn run(&self, tape: &[u16], st: &mut Stats) -> PResult {
         check_case(&decode(tape), st)
+    }
+    fn fixed_cases(&self) -> Vec<FixedCase> {
+        vec![FixedCase {
+            name: "strict-refusal-of-truncated-tag",
+            finding: Some("C06-strict-refusal-of-truncated-tag"),
+            what: "strict mode, '<frameset><script ' (input ends inside the start tag): with only a `*` element handler the run fails with ParsingAmbiguity, with a document text observer added it succeeds",
+            run: Box::new(|st| {
+                let h = Cfg { strict: true, sels: vec![SelSpec { sel: "*".into(), el: true, ..Default::default() }], ..Cfg::default() };
+                let mut o = h.clone();
+                o.docs.push(DocSpec { text: true, ..Default::default() });
+                check_case(&Case { input: b"<frameset><script ".to_vec(), cuts: vec![], h, observers: vec![o] }, st)
+            }),
+        }]
     }
     fn describe(&self, tape: &[u16]) -> Value {
         let c = decode(tape);
